@@ -4,6 +4,7 @@
 
 mod conv;
 mod ctx;
+mod evalx;
 mod gen;
 mod iso;
 mod model;
